@@ -230,3 +230,22 @@ Theorem C10_source_thin_bodies :
   thin_of "GenericArray<T,N>" "into_chunks" = Some "unsafe { mem :: transmute (chunks) }" /\
   thin_of "GenericArray<T,N>" "into_chunks_mut" = Some "unsafe { mem :: transmute (chunks) }".
 Proof. repeat split. Qed.
+
+(* ---- T1: the signatures of this property's inherent methods / free functions as they stand in the source now
+        (coq/gen/GenSigs.v gen_fn_sigs): visibility, const / unsafe, generics, parameters, result, where-clause --
+        a caller generic over `const U` states exactly `Const<U>: IntoArrayLength<ArrayLength = N>`; all eight are const fns ---- *)
+From Coq Require Import String.
+From GA Require Import SigDefs.
+From GAGen Require Import GenSigs.
+Local Open Scope string_scope.
+
+Theorem C10_source_signatures :
+  sig_of "GenericArray<T,N> where N:ArrayLength" "chunks_from_slice" = Some "pub const fn chunks_from_slice (slice : & [T]) -> (& [GenericArray < T , N >] , & [T])" /\
+  sig_of "GenericArray<T,N> where N:ArrayLength" "chunks_from_slice_mut" = Some "pub const fn chunks_from_slice_mut (slice : & mut [T]) -> (& mut [GenericArray < T , N >] , & mut [T])" /\
+  sig_of "GenericArray<T,N> where N:ArrayLength" "slice_from_chunks" = Some "pub const fn slice_from_chunks (slice : & [GenericArray < T , N >]) -> & [T]" /\
+  sig_of "GenericArray<T,N> where N:ArrayLength" "slice_from_chunks_mut" = Some "pub const fn slice_from_chunks_mut (slice : & mut [GenericArray < T , N >]) -> & mut [T]" /\
+  sig_of "GenericArray<T,N> where N:ArrayLength" "from_chunks" = Some "pub const fn from_chunks < const U : usize > (chunks : & [[T ; U]]) -> & [GenericArray < T , N >] where Const < U > : IntoArrayLength < ArrayLength = N > ," /\
+  sig_of "GenericArray<T,N> where N:ArrayLength" "from_chunks_mut" = Some "pub const fn from_chunks_mut < const U : usize > (chunks : & mut [[T ; U]]) -> & mut [GenericArray < T , N >] where Const < U > : IntoArrayLength < ArrayLength = N > ," /\
+  sig_of "GenericArray<T,N> where N:ArrayLength" "into_chunks" = Some "pub const fn into_chunks < const U : usize > (chunks : & [GenericArray < T , N >]) -> & [[T ; U]] where Const < U > : IntoArrayLength < ArrayLength = N > ," /\
+  sig_of "GenericArray<T,N> where N:ArrayLength" "into_chunks_mut" = Some "pub const fn into_chunks_mut < const U : usize > (chunks : & mut [GenericArray < T , N >]) -> & mut [[T ; U]] where Const < U > : IntoArrayLength < ArrayLength = N > ,".
+Proof. repeat split. Qed.
